@@ -30,7 +30,7 @@ UU = "90478484-0988-45fc-91fe-757d90136892"
 UU1 = "6ba7b810-9dad-11d1-80b4-00c04fd430c8"  # version 1; the nil UUID and a version-7-shaped one are in VALUE_TEXTS
 SEGS = [
     "a", "aXb", "a.b", "a+b", "b", "1", "007", "1.5", "1x5", "1.", "100", "0", "10.0", "1.50", "", UU, UU.upper(), UU1,
-    "2021-03-07", "2021-13-45", "2020-02-30", "x\ny", "١", "é", "v1.2", "a.txt", ".txt",
+    "2021-03-07", "2021-10-05", "2021-13-45", "2020-02-30", "x\ny", "١", "é", "v1.2", "a.txt", ".txt",
 ]
 PAIR_PATHS = ["/a", "/b", "/1", "/1.5", "/2021-03-07", "/" + UU, "/a/1", "/1/b", "/a/b/c", "/é/1"]
 BOUNDS = {"quick": {"k": 2, "d": 2}, "thorough": {"k": 3, "d": 3}}
@@ -379,6 +379,21 @@ VALUE_TEXTS = {
 def roundtrip(r):
     """For every value a placeholder text denotes: to_string gives text the same placeholder accepts and converts back equal."""
     from baize.routing import CONVERTOR_TYPES, Route
+    import datetime as _dt
+
+    # every day of a common year and of a leap year, and the ends of the calendar, through the date placeholder of a routed request
+    days = [_dt.date(y, 1, 1) + _dt.timedelta(n) for y in (2021, 2024) for n in range(366 if y == 2024 else 365)] + [_dt.date(1, 1, 1), _dt.date(9999, 12, 31), _dt.date(1999, 10, 28)]
+    for iface in ("wsgi", "asgi"):
+        log = []
+        router = build_router(iface, ("/log/{day:date}", "/log/{name}"), log)
+        for d in days:
+            text = "%04d-%02d-%02d" % (d.year, d.month, d.day)
+            del log[:]
+            res = call(iface, router, "/log/" + text)
+            r.count("evaluations")
+            r.count("distinct_nontrivial")
+            if res.exc is not None or res.status != 200 or len(log) != 1 or log[0][0] != 0 or log[0][1] != {"day": d} or CONVERTOR_TYPES["date"].to_string(d) != text:
+                r.violation("calendar:date-route", {"type": "date", "text": text, "iface": iface}, f"{iface} Router('/log/{{day:date}}', '/log/{{name}}') on /log/{text}: status {res.status}, exception {res.exc!r:.60}, calls {log!r:.120}; expected route 0 with the date, and to_string giving the same text back")
 
     for typ, texts in VALUE_TEXTS.items():
         conv = CONVERTOR_TYPES[typ]
